@@ -58,6 +58,17 @@ Definition fitsb (d : Z) (x : dec) : bool :=
   let u := 10 ^ (- d - e) in
   2 * Z.of_N (coef x) * 10 ^ (dexp x - e) + u <? 2 * 10 ^ 28 * u.
 
+(* The default context also bounds the adjusted exponent (exponent + digits - 1) of a result by
+   Emax = 999999: a result with exponent -d can have at most 999999 + 1 + d digits.  For d >= -999972
+   (every d >= 0 in particular) that is no restriction and [fits_ctx] is [fitsb]; for a negative digits
+   argument close to -999999 fewer than 28 digits fit. *)
+Definition digits_allowed (d : Z) : Z := Z.min 28 (1000000 + d).
+
+Definition fits_ctx (d : Z) (x : dec) : bool :=
+  let e := common d x in
+  let u := 10 ^ (- d - e) in
+  2 * Z.of_N (coef x) * 10 ^ (dexp x - e) + u <? 2 * 10 ^ digits_allowed d * u.
+
 (* ---------- conversion table ---------- *)
 
 (* Type names as the runner reports them (type(v).__name__), as small codes:
